@@ -191,6 +191,37 @@ fn gen_router(rng: &mut Prng, emit: &mut dyn FnMut(Value)) {
     emit(json!({"mode": "router", "cfg": {"ihc": rng.chance(1, 2), "ipc": rng.chance(1, 2), "any": rng.chance(1, 4)}, "rules": rules, "reqs": reqs, "limits": limits}));
 }
 
+/// Explain-trace JSON reduced to what must not depend on caching, independent of HashMap iteration order: routes become sorted
+/// ids, children are sorted by their canonical text.
+fn canon_trace(v: &Value) -> Value {
+    match v {
+        Value::Object(m) => {
+            let mut out = serde_json::Map::new();
+            for (k, x) in m {
+                if k == "routes" {
+                    let mut ids: Vec<String> = x.as_array().map(|a| a.iter().map(|r| r.get("id").and_then(|i| i.as_str()).unwrap_or("?").to_string()).collect()).unwrap_or_default();
+                    ids.sort();
+                    out.insert(k.clone(), json!(ids));
+                } else if k == "final_route" {
+                    out.insert(k.clone(), x.get("id").cloned().unwrap_or(Value::Null));
+                } else if k == "children" || k == "traces" {
+                    let mut cs: Vec<Value> = x.as_array().map(|a| a.iter().map(canon_trace).collect()).unwrap_or_default();
+                    cs.sort_by_key(|c| c.to_string());
+                    out.insert(k.clone(), Value::Array(cs));
+                } else if k == "cached" {
+                    // memoisation flag of header / date conditions inside one trace call: not a regex-cache observation
+                    out.insert(k.clone(), x.clone());
+                } else {
+                    out.insert(k.clone(), canon_trace(x));
+                }
+            }
+            Value::Object(out)
+        }
+        Value::Array(a) => Value::Array(a.iter().map(canon_trace).collect()),
+        other => other.clone(),
+    }
+}
+
 fn run_router(case: &Value) -> Obs {
     let cfg = case.get("cfg").cloned().unwrap_or(json!({}));
     let b = |k: &str| cfg.get(k).and_then(|v| v.as_bool()).unwrap_or(false);
@@ -229,13 +260,17 @@ fn run_router(case: &Value) -> Obs {
         let host = q.get("host").and_then(|h| h.as_str()).map(|h| h.to_string());
         requests.push(Request::from_config(&config, path, host, Some("https".to_string()), Some("GET".to_string()), None, None));
     }
-    let observe = |router: &Router<Rule>| -> Vec<Vec<String>> {
+    // per request: [sorted ids of match_request, id of get_route, the explain trace (get_trace: every node with its matched /
+    // executed / count fields, the routes stored under it and the final route), canonicalised for HashMap order]
+    let observe = |router: &Router<Rule>| -> Vec<Value> {
         requests
             .iter()
             .map(|q| {
                 let mut ids: Vec<String> = router.match_request(q).iter().map(|r| r.id().to_string()).collect();
                 ids.sort();
-                ids
+                let best = router.get_route(q).map(|r| r.id().to_string());
+                let trace = serde_json::to_value(router.get_trace(q)).map(|v| canon_trace(&v)).unwrap_or(json!("unserialisable"));
+                json!([ids, best, trace])
             })
             .collect()
     };
@@ -247,7 +282,7 @@ fn run_router(case: &Value) -> Obs {
         router
     };
     let baseline = observe(&build());
-    let any_hit = baseline.iter().any(|b| !b.is_empty());
+    let any_hit = baseline.iter().any(|b| b[0].as_array().map(|a| !a.is_empty()).unwrap_or(false));
     let mut per_limit = Vec::new();
     let mut fail: Option<String> = None;
     for l in case.get("limits").and_then(|l| l.as_array()).cloned().unwrap_or_default() {
@@ -260,9 +295,10 @@ fn run_router(case: &Value) -> Obs {
         let after2 = observe(&router);
         for (i, ((b, a), a2)) in baseline.iter().zip(after.iter()).zip(after2.iter()).enumerate() {
             if (b != a || b != a2) && fail.is_none() {
+                let what = if b[0] != a[0] || b[0] != a2[0] { "match_request" } else if b[1] != a[1] || b[1] != a2[1] { "get_route" } else { "get_trace" };
                 fail = Some(format!(
-                    "request {i} {:?}: uncached router matches {b:?}, after cache({limit:?}) {a:?}, after a second warm-up {a2:?}",
-                    case["reqs"][i]
+                    "request {i} {:?}: {what} differs between the uncached router and the router after cache({limit:?}) (or after a second warm-up): {} / {} / {}",
+                    case["reqs"][i], b, a, a2
                 ));
             }
         }
@@ -346,7 +382,7 @@ fn gen(args: &Args, emit: &mut dyn FnMut(Value)) {
                             // a second warm-up and an update after caching
                             ops.push(json!(["c", 1, Value::Null]));
                             ops.push(json!(["r", format!("i{}", sub[0])]));
-                            emit_modes(emit, false, false, &ops, &hay, true, &["beh", "snap", "real"]);
+                            emit_modes(emit, false, false, &ops, &hay, true, &["beh", "snap", "real", "trace"]);
                         }
                     }
                 }
@@ -367,7 +403,8 @@ fn gen(args: &Args, emit: &mut dyn FnMut(Value)) {
         let nops = rng.range(3, 16);
         let ops = history(&pool, unique, &mut rng, nops, 8);
         let hay = haystacks(&pool, &mut rng, 8);
-        emit_modes(emit, ic, unique, &ops, &hay, false, &["beh", "snap", "real"]);
+        // trace(haystack) after the history (with its cache calls): vs the model's trace and vs the cache-free twin
+        emit_modes(emit, ic, unique, &ops, &hay, false, &["beh", "snap", "real", "trace"]);
     }
 }
 
@@ -413,7 +450,8 @@ fn run12(case: &Value) -> Obs {
     } else {
         run(case)
     };
-    if o.oracle != "ok" || !(twin || mode.as_deref() == Some("beh")) {
+    let is_trace = mode.as_deref() == Some("trace");
+    if o.oracle != "ok" || !(twin || is_trace || mode.as_deref() == Some("beh")) {
         return o;
     }
     let ops = match case.get("ops").and_then(|o| o.as_array()) {
@@ -435,13 +473,21 @@ fn run12(case: &Value) -> Obs {
         return o.trivial(true);
     }
     let mut stripped = case.clone();
-    stripped["mode"] = json!("beh");
+    stripped["mode"] = json!(if is_trace { "trace" } else { "beh" });
     stripped["ops"] = Value::Array(ops.iter().filter(|op| !is_cache(op)).cloned().collect());
     let base = run(&stripped);
     let (full, plain) = match (o.obs.as_array(), base.obs.as_array()) {
         (Some(a), Some(b)) => (a.clone(), b.clone()),
-        _ => return o,
+        _ => return o.fail("the history or its cache-free twin did not produce a list of observations", "twin-not-comparable"),
     };
+    if is_trace {
+        // trace(haystack) of the final tree: the tree that went through the cache calls vs the one that did not
+        if full != plain {
+            let i = full.iter().zip(plain.iter()).position(|(a, b)| a != b).unwrap_or(0);
+            return o.fail(format!("trace of haystack #{i} differs between the tree with cache warm-ups and the tree without: {} vs {}", full.get(i).unwrap_or(&Value::Null), plain.get(i).unwrap_or(&Value::Null)), "cache-visible");
+        }
+        return o;
+    }
     // observation of the empty tree (before the first op)
     let mut j = 0usize; // next step of the cache-free run
     let mut prev: Option<Value> = None;
